@@ -435,6 +435,10 @@ func (r *run) call(fn *ssa.Function, args []Val, st *State, depth int) (ret []Va
 							okv = res
 						}
 					}
+					if b, known := AsBool(okv); known && !b {
+						// a failed assertion yields the zero value of the asserted type
+						a = zeroOf(x.AssertedType)
+					}
 					vals[x] = Tuple{[]Val{a, okv}}
 				} else {
 					vals[x] = a
